@@ -116,6 +116,19 @@ def handle : Handler := fun op args =>
     let steps ← if steps = "~" then some [] else (steps.splitOn ",").mapM (parseStep? hdrs)
     let out := run rev hdrs steps (BC.new anchor) []
     some ("ok " ++ (if out.isEmpty then "~" else "|".intercalate out))
+  | "c15two", [iter, anchorA, hdrsA, anchorB, hdrsB, steps] => do
+    -- two objects fed interleaved: in the model they share nothing, so each is its own history
+    let rev := iter = "1"
+    let parseH := fun (h : String) => if h = "~" then some [] else (h.splitOn ",").mapM parseHeader?
+    let hA ← parseH hdrsA
+    let hB ← parseH hdrsB
+    let aA ← parseNat? anchorA
+    let aB ← parseNat? anchorB
+    let tagged := if steps = "~" then [] else steps.splitOn ","
+    let stA ← (tagged.filter (·.startsWith "0")).mapM fun t => parseStep? hA (t.drop 1).toString
+    let stB ← (tagged.filter (·.startsWith "1")).mapM fun t => parseStep? hB (t.drop 1).toString
+    let show' := fun (out : List String) => if out.isEmpty then "~" else "|".intercalate out
+    some ("ok " ++ show' (run rev hA stA (BC.new aA) []) ++ "#" ++ show' (run rev hB stB (BC.new aB) []))
   | "c15inv", [anchor, iter, hdrs, steps] => do
     let anchor ← parseNat? anchor
     let rev := iter = "1"
